@@ -1,0 +1,16 @@
+//go:build verif
+
+package core
+
+// Machine-checked contracts for /verif (govc). Comment-only: compiled only with -tags verif, adds no code.
+
+// C13: the completeness / propagation / precision / effect obligations of closeResources are generated
+// mechanically from createResources on every run (see /verif/govc/reload.go); this block only names the
+// reload entry points whose calls are counted.
+
+//@ func (p *Core) closeResources
+//@   property C13
+//@   safety -all
+//@   assert-call ReloadInternalUsers: true
+//@   assert-call ReloadPathConfs: true
+//@   ensures true
